@@ -167,7 +167,7 @@ func runC19(args []string) error {
 		return err
 	}
 	thorough := *tier == "thorough"
-	nMain, nWild, shards := 34, 8, 16
+	nMain, nWild, shards := 60, 12, 16
 	if thorough {
 		nMain, nWild, shards = 1500, 300, 192
 	}
@@ -574,9 +574,16 @@ func runC19(args []string) error {
 				ref = nil // no reference for the events of a terminated session
 				exact = 2
 			}
-			fmt.Fprintf(b, "Definition c%d := (Build_session %d p%d_%d %s %s a%d_%d a%d_0 %s %s %s %s %s %s %s %s %s %d)%%N.\n", id, id, pi, c.Toks,
+			sameOut := 2
+			if !c19HasTerminate(c.Spec.Reqs) {
+				sameOut = 0
+				if c.Ses.Stdout == pr.traceOut[c.Toks] && c.Ses.End == pr.traceEnd[c.Toks] {
+					sameOut = 1
+				}
+			}
+			fmt.Fprintf(b, "Definition c%d := (Build_session %d p%d_%d %s %s a%d_%d a%d_0 %s %s %s %s %s %s %s %d %s %s %d)%%N.\n", id, id, pi, c.Toks,
 				coqList(lines), coqList(funcs), pi, c.Toks, pi, coqList(reqs), coqList(markers), coqList(evs), coqList(oflags), coqList(vlines), coqList(vfuncs),
-				c19Ints(c19MarkerTrace(c.Ses.Stdout)), c19Ints(ref), c19Ints(trace0[pi]), exact)
+				c19Ints(c19MarkerTrace(c.Ses.Stdout)), sameOut, c19Ints(ref), c19Ints(trace0[pi]), exact)
 			counts[sh]++
 			fmt.Fprintf(b, "Definition r%d := Eval vm_compute in (c19_mis_y [c%d], c19_mis_g [c%d]).\n", id, id, id)
 		}
